@@ -1,6 +1,7 @@
 (* Correspondence driver: replays a harness trace against the extracted Coq
    models.  Thin glue only: parsing, value conversion, printing.  All
    semantics (AM step, abstraction, invariant, agreement) are extracted code. *)
+type ostring = string
 open Extracted
 
 let rec pos_of_int i = if i = 1 then XH else if i land 1 = 1 then XI (pos_of_int (i lsr 1)) else XO (pos_of_int (i lsr 1))
@@ -433,7 +434,7 @@ let main_c15 file full =
 let raw_of_hex s = String.init (String.length s / 2) (fun i -> Char.chr (hexv s.[2*i] * 16 + hexv s.[2*i+1]))
 
 (* per-block digests, found again by physical identity of the byte list *)
-let blk_tbl : (int, (byte0 list * string)) Hashtbl.t = Hashtbl.create 4096
+let blk_tbl : (int, (byte0 list * ostring)) Hashtbl.t = Hashtbl.create 4096
 let weak_key (l : byte0 list) = Hashtbl.hash l
 let register_block l hexs =
   Hashtbl.add blk_tbl (weak_key l) (l, Digest.to_hex (Digest.string (raw_of_hex hexs)))
@@ -782,10 +783,66 @@ let main_kvs file =
     done with End_of_file -> ());
   Printf.printf "DONE calls=%d badcalls=%d puts=%d images=%d badimages=%d\n" !nq !nbadq !nput !nimg !nbadimg
 
+
+(* ---------- XDR (C16): Go-encoded values and malformed byte strings against the extracted codec ---------- *)
+let ascii_of_char c =
+  let n = Char.code c in
+  Ascii (n land 1 <> 0, n land 2 <> 0, n land 4 <> 0, n land 8 <> 0, n land 16 <> 0, n land 32 <> 0, n land 64 <> 0, n land 128 <> 0)
+let chars_of_string (s : ostring) =
+  let r = ref EmptyString in
+  for i = Stdlib.String.length s - 1 downto 0 do r := String (ascii_of_char s.[i], !r) done; !r
+let rec nat_of_int i = if i <= 0 then O else S (nat_of_int (i - 1))
+
+let main_xdr file =
+  let ic = open_in file in
+  let nx = ref 0 and ny = ref 0 and bad = ref 0 and nacc = ref 0 and nrej = ref 0 in
+  let fuel = nat_of_int 400 in
+  let report kind ty what = incr bad; Printf.printf "%s %s BAD %s\n" kind ty what in
+  (try while true do
+      let line = input_line ic in
+      match split_on ' ' line with
+      | "X" :: ty :: b :: refb :: _ ->
+        incr nx;
+        let bs = bytes_of_hex b in
+        if refb = "referr" then report "X" ty "independent-rfc1813-codec-rejects-the-encoding"
+        else if refb <> b then report "X" ty "independent-rfc1813-codec-reencodes-differently";
+        (* the generated descriptors of the repository's codec *)
+        (match dec gen_env fuel (TRef (chars_of_string ty)) bs with
+         | Some (v, []) ->
+           (match enc gen_env fuel (TRef (chars_of_string ty)) v with
+            | Some bs' -> if bs' <> bs then report "X" ty "model-reencodes-differently"
+            | None -> report "X" ty "model-cannot-reencode")
+         | Some (_, _ :: _) -> report "X" ty "model-leaves-trailing-bytes"
+         | None -> report "X" ty "model-rejects-go-encoding");
+        (* the RFC's descriptors *)
+        (match lookup_ci rfc_env (chars_of_string ty) with
+         | Some t ->
+           (match dec rfc_env fuel t bs with
+            | Some (v, []) -> (match enc rfc_env fuel t v with Some bs' when bs' = bs -> () | _ -> report "X" ty "rfc-descriptor-reencodes-differently")
+            | _ -> report "X" ty "rfc-descriptor-rejects-go-encoding")
+         | None -> report "X" ty "no-rfc-descriptor")
+      | "XE" :: ty :: _ -> report "X" ty "go-encoder-failed"
+      | "Y" :: ty :: b :: res :: re :: _ ->
+        incr ny;
+        let bs = bytes_of_hex b in
+        (match dec gen_env fuel (TRef (chars_of_string ty)) bs, res with
+         | Some (v, _), "ok" ->
+           incr nacc;
+           (match enc gen_env fuel (TRef (chars_of_string ty)) v with
+            | Some bs' -> if re <> "encerr" && bs' <> bytes_of_hex re then report "Y" ty ("decoded-differently:" ^ b)
+            | None -> report "Y" ty ("model-cannot-reencode:" ^ b))
+         | None, "err" -> incr nrej
+         | Some _, _ -> report "Y" ty ("go-rejects-model-accepts:" ^ b)
+         | None, _ -> report "Y" ty ("go-accepts-model-rejects:" ^ b))
+      | _ -> ()
+    done with End_of_file -> ());
+  Printf.printf "DONE values=%d malformed=%d accepted=%d rejected=%d bad=%d\n" !nx !ny !nacc !nrej !bad
+
 let () =
   match Array.to_list Sys.argv with
   | _ :: "c15" :: file :: rest -> main_c15 file (rest = ["full"])
   | _ :: "crash" :: file :: _ -> main_crash file
+  | _ :: "xdr" :: file :: _ -> main_xdr file
   | _ :: "simple" :: file :: _ -> main_simple file
   | _ :: "kvs" :: file :: _ -> main_kvs file
   | _ :: "seq" :: file :: rest -> main_seq file (rest <> ["noabs"])
